@@ -9,18 +9,40 @@
 pub struct Tape<'a> {
     data: &'a [u16],
     pos: usize,
+    /// when non-zero: reads past the end of the tape continue with a xorshift stream seeded
+    /// from a tape value (still a pure function of the tape; a zero seed - the shrink target -
+    /// gives the plain behaviour). Used by the huge-package stages, whose thousands of
+    /// per-candidate choices no tape of practical length can hold.
+    tail: u64,
 }
 
 impl<'a> Tape<'a> {
     pub fn new(data: &'a [u16]) -> Self {
-        Self { data, pos: 0 }
+        Self { data, pos: 0, tail: 0 }
     }
 
     #[inline]
     pub fn next(&mut self) -> u16 {
-        let v = self.data.get(self.pos).copied().unwrap_or(0);
+        let v = match self.data.get(self.pos) {
+            Some(v) => *v,
+            None if self.tail != 0 => {
+                let mut x = self.tail;
+                x ^= x << 13;
+                x ^= x >> 7;
+                x ^= x << 17;
+                self.tail = x;
+                (x.wrapping_mul(0x2545_F491_4F6C_DD1D) >> 48) as u16
+            }
+            None => 0,
+        };
         self.pos += 1;
         v
+    }
+
+    /// Continue past the end of the tape with a pseudo-random stream derived from `seed`
+    /// (0 = off).
+    pub fn enable_tail(&mut self, seed: u16) {
+        self.tail = if seed == 0 { 0 } else { (seed as u64).wrapping_mul(0x9E37_79B9_7F4A_7C15) | 1 };
     }
 
     /// the not yet consumed part of the tape
